@@ -111,6 +111,25 @@ mut("c10_solve_without_seterr", "C10", [("forsys/fmatrix.py",
     "        assert self.lhs_matrix is not None, \"LHS matrix not set\"\n")],
     "solves no longer switch the calling thread to raise mode: on a caller thread that is not the importing thread floating point errors become warnings; only matters when a solve actually hits one",
     expect="caught")
+mut("c09_join_keeps_second_vertex", "C09", [("forsys/virtual_edges.py",
+    "    del vertices[v0.id]\n    del vertices[v1.id]\n", "    del vertices[v0.id]\n")],
+    "the second end of a contracted interface stays in the vertex dictionary with stale back-references")
+mut("c09_frame_sorts_cycles", "C09", [("forsys/frames.py",
+    "        for _, cell in self.cells.items():\n            cell.calculate_neighbors()\n",
+    "        for _, cell in self.cells.items():\n            cell.calculate_neighbors()\n            if cell.get_area_sign() < 0 and len(cell.neighbors) == 1:\n                cell.vertices.sort(key=lambda v: v.id)\n")],
+    "Frame construction reorders the cycle of clockwise cells that have exactly one neighbour")
+mut("c10_frame_forces_not_updated_on_resolve", "C10", [("forsys/forsys.py",
+    "        self.frames[when].forces = self.forces[when]\n",
+    "        if not hasattr(self.frames[when], \"forces\"):\n            self.frames[when].forces = self.forces[when]\n")],
+    "Frame.forces keeps the result of the first solve of that frame")
+mut("c10_assign_tensions_skips_unchanged_count", "C10", [("forsys/frames.py",
+    "        for big_edge_id, big_edge in self.big_edges.items():\n            objects = [self.edges[eid].tension for eid in big_edge.edges]\n            self.big_edges[big_edge_id].tension = np.mean(objects)\n",
+    "        for big_edge_id, big_edge in self.big_edges.items():\n            if big_edge.tension and big_edge.external:\n                continue\n            objects = [self.edges[eid].tension for eid in big_edge.edges]\n            if big_edge.tension == 0.0 or not np.isclose(np.mean(objects), 0.0):\n                self.big_edges[big_edge_id].tension = np.mean(objects)\n")],
+    "an interface that had a tension keeps it when the new solve assigns exactly zero (excluded by a later angle limit)")
+mut("c11_vertex_removal_skips_last_cell", "C11", [("forsys/virtual_edges.py",
+    "            for cid in v.ownCells:\n                cells[cid].vertices.remove(v)\n",
+    "            for cid in v.ownCells:\n                if len(cells[cid].vertices) > 3:\n                    cells[cid].vertices.remove(v)\n")],
+    "removed points stay in the cycle of cells that are down to three vertices")
 
 
 def crlf(s):
